@@ -34,7 +34,7 @@ theorem next_mem {s : Seg} {l : List Nat} (h : Linked s l) {i : Nat} (hi : i ∈
 /-- from any cursor position, `next` leads into the stream or to null -/
 theorem cur_next_mem {s : Seg} {l : List Nat} (h : Linked s l) {i : Nat} (hi : IsOK s l (some i)) :
     ∀ x, (s.get i).next = some x → x ∈ l := by
-  rcases hi with h0 | ⟨i', h1, h2⟩ | ⟨d, h1, h2, h3, h4, h5⟩
+  rcases hi with h0 | ⟨i', h1, h2⟩ | ⟨d, h1, h2, h3, h4, h5, h6⟩
   · cases h0
   · cases h1; exact next_mem h h2
   · cases h1
@@ -45,7 +45,7 @@ theorem cur_next_mem {s : Seg} {l : List Nat} (h : Linked s l) {i : Nat} (hi : I
 /-- from any cursor position, `prev` leads into the stream or to null -/
 theorem cur_prev_mem {s : Seg} {l : List Nat} (h : Linked s l) {i : Nat} (hi : IsOK s l (some i)) :
     ∀ x, (s.get i).prev = some x → x ∈ l := by
-  rcases hi with h0 | ⟨i', h1, h2⟩ | ⟨d, h1, h2, h3, h4, h5⟩
+  rcases hi with h0 | ⟨i', h1, h2⟩ | ⟨d, h1, h2, h3, h4, h5, h6⟩
   · cases h0
   · cases h1; exact prev_mem h h2
   · cases h1
